@@ -59,6 +59,9 @@ func writeReplay(eng *Engine, id, dir string, r *OblResult, reports []*FuncRepor
 	if r.Status == "failed" && rep != nil && rep.fnObj != nil && r.Model != nil {
 		tryConcreteReplay(eng, rf, r, rep, dir)
 	}
+	if !rf.Confirmed && rep != nil && rep.Pkg != "" {
+		tryWitness(rf, r, rep, dir)
+	}
 	if rf.Verdict == "" {
 		switch r.Status {
 		case "failed":
@@ -392,8 +395,52 @@ func tryConcreteReplay(eng *Engine, rf *ReplayFile, r *OblResult, rep *FuncRepor
 	}
 }
 
+// tryWitness: hand-written witness builders under /verif/witness/<pkg>/ turn the input class named by
+// an obligation into concrete inputs for the real code. Header lines of the form
+//   // obligation: <prefix of Fn::name> => <label>
+// bind obligations to labelled cases; the case is confirmed when the test prints
+// "GOCV-PANIC <label>" or "GOCV-FAIL <label>".
+func tryWitness(rf *ReplayFile, r *OblResult, rep *FuncReport, dir string) {
+	pkgName := rep.Pkg[strings.LastIndex(rep.Pkg, "/")+1:]
+	files, _ := filepath.Glob(filepath.Join(verifDir(), "witness", pkgName, "*_test.go"))
+	full := r.Fn + "::" + r.Name
+	for _, f := range files {
+		data, err := os.ReadFile(f)
+		if err != nil {
+			continue
+		}
+		for _, ln := range strings.Split(string(data), "\n") {
+			ln = strings.TrimSpace(ln)
+			if !strings.HasPrefix(ln, "// obligation:") {
+				continue
+			}
+			parts := strings.SplitN(strings.TrimSpace(strings.TrimPrefix(ln, "// obligation:")), "=>", 2)
+			if len(parts) != 2 || !strings.HasPrefix(full, strings.TrimSpace(parts[0])) {
+				continue
+			}
+			label := strings.TrimSpace(parts[1])
+			out, _ := runTestOverlay(dir, rep.Pkg, string(data), "zz_gocv_witness_test.go", "^TestGocvWitness")
+			rf.TestSrc = string(data)
+			rf.TestOut = out
+			for _, ol := range strings.Split(out, "\n") {
+				if (strings.Contains(ol, "GOCV-PANIC") || strings.Contains(ol, "GOCV-FAIL")) && strings.Contains(ol, label) {
+					rf.Confirmed = true
+					rf.Verdict = "witness " + filepath.Base(f) + " reproduces it on the real code: " + strings.TrimSpace(ol)
+					return
+				}
+			}
+			rf.Verdict = "witness " + filepath.Base(f) + " (" + label + ") does not fail on the real code"
+			return
+		}
+	}
+}
+
 // runReplayTest runs an in-package test against the real code via -overlay.
 func runReplayTest(work, pkgPath, src string) (string, error) {
+	return runTestOverlay(work, pkgPath, src, "zz_gocv_replay_test.go", "^TestGocvReplay$")
+}
+
+func runTestOverlay(work, pkgPath, src, fileName, runPat string) (string, error) {
 	repo := repoDir()
 	os.MkdirAll(work, 0o755)
 	alt, err := writeAltMod(work)
@@ -403,11 +450,11 @@ func runReplayTest(work, pkgPath, src string) (string, error) {
 	rel := strings.TrimPrefix(pkgPath, "github.com/0chain/common")
 	rel = strings.TrimPrefix(rel, "/")
 	pkgDir := filepath.Join(repo, rel)
-	testFile := filepath.Join(work, "zz_gocv_replay_test.go")
+	testFile := filepath.Join(work, fileName)
 	if err := os.WriteFile(testFile, []byte(src), 0o644); err != nil {
 		return "", err
 	}
-	replace := map[string]string{filepath.Join(pkgDir, "zz_gocv_replay_test.go"): testFile}
+	replace := map[string]string{filepath.Join(pkgDir, fileName): testFile}
 	// blank the package's own tests: only the generated test must run (and core/util's external
 	// test package does not build in this sandbox)
 	entries, _ := os.ReadDir(pkgDir)
@@ -419,7 +466,7 @@ func runReplayTest(work, pkgPath, src string) (string, error) {
 	ov, _ := json.Marshal(map[string]interface{}{"Replace": replace})
 	ovFile := filepath.Join(work, "overlay.json")
 	os.WriteFile(ovFile, ov, 0o644)
-	cmd := exec.Command("go", "test", "-modfile="+alt, "-overlay="+ovFile, "-vet=off", "-count=1", "-v", "-timeout", "60s", "-run", "^TestGocvReplay$", "./"+rel)
+	cmd := exec.Command("go", "test", "-modfile="+alt, "-overlay="+ovFile, "-vet=off", "-count=1", "-v", "-timeout", "60s", "-run", runPat, "./"+rel)
 	cmd.Dir = repo
 	cmd.Env = goEnv()
 	out, err := cmd.CombinedOutput()
